@@ -63,7 +63,7 @@ TReport == /\ Has /\ Ev.e = "Return" /\ Report
 (* stop-early tail (kills) is not validated step by step: the trace ends at the first Kill *)
 TNext == \/ TStart \/ TLaunchRun \/ TLaunchSkip \/ TLaunchNone \/ TSpawn \/ TSpawnFail \/ TExit \/ THandler
          \/ TFinishOk \/ TFinishFail \/ TReport
-         \/ Silent(LoopTest) \/ Silent(SyncStart) \/ Silent(Register) \/ Silent(Wait) \/ Silent(AfterLoop) \/ Silent(KillExits)
+         \/ Silent(LoopTest) \/ Silent(SyncStart) \/ Silent(Register) \/ Silent(WaitTry) \/ Silent(Unblock) \/ Silent(AfterLoop) \/ Silent(KillExits)
 TSpec == TInit /\ [][TNext /\ UNCHANGED tid]_tvars
 
 (* one line per trace: how far it could be consumed *)
